@@ -690,6 +690,13 @@ func (f For) byteCode(srcsel int, fl flags.Pass, cr compResult) bytecode.Type {
 	discard := fl.Data().Discard
 	returning := fl.Data().Returning
 
+	// a return in the body has to remove the contexts of every enclosing loop
+	// of the function, not only the ones of this loop
+	ctxLo := ctxID
+	if fl.Data().InFor {
+		ctxLo = fl.Data().CtxLo
+	}
+
 	var assignAddr int
 
 	if !discard {
@@ -759,7 +766,7 @@ func (f For) byteCode(srcsel int, fl flags.Pass, cr compResult) bytecode.Type {
 	body := f.Body.byteCode(0, fl.Data().Pass(
 		flags.WithInFor(true),
 		flags.WithCtxID(ctxID+len(f.VarRefs.Elems)),
-		flags.WithCtxLo(ctxID),
+		flags.WithCtxLo(ctxLo),
 		flags.WithCtxHi(ctxID+len(f.VarRefs.Elems)-1),
 		flags.WithDiscard(discard)), cr)
 
